@@ -2,10 +2,10 @@ THEOREMS = ["Lbfgsb.C03.ls_strict_decrease", "Lbfgsb.C03.failed_ls_keeps_x", "Lb
 MODULES = ["LbfgsbVerif.Props.C03"]
 MONITORS = ["C03", "C02"]
 N_QUICK, N_THOROUGH = 1200, 12000
-COMMON = {"chain_frac": 0.2, "small_budgets": True, "families": ["qp", "qp_quartic", "rosen", "osc", "styb", "badscale", "steep", "steep", "bench"]}
-ASSUMPTIONS = ["objectives finite-valued on the box (no NaN)", "fixed objective (no update_fun_def)"]
+COMMON = {"chain_frac": 0.2, "small_budgets": True, "families": ["qp", "qp_quartic", "rosen", "osc", "styb", "badscale", "steep", "steep", "bench", "nan_edge", "nan_edge"]}
+ASSUMPTIONS = ["objectives finite-valued at the start; the nan_edge family is NaN on part of the box (monitors only, no replay)", "fixed objective (no update_fun_def)"]
 RULE = ("random runs with maxls in 1..20 and maxfun from 1 (budget exhausted mid-search), convex / non-convex / badly scaled "
-        "families; sequence f(x0), callback states' fun, result fun checked non-increasing; non-trivial = at least one iteration")
+        "families, objectives that are NaN beyond the edge of their domain; sequence f(x0), callback states' fun, result fun checked non-increasing; non-trivial = at least one iteration")
 
 
 def features(r):
